@@ -65,6 +65,13 @@ class C01(DevProp):
                 down.discard(e["code"])
         return seen_overlap and seen_act
 
+    def perturb(self, case, res):
+        # falsify: a Note On that nothing ever releases, sent with the last event
+        if not res["steps"]:
+            return None
+        res["steps"][-1]["midi"].append([0x99, 3, 64])
+        return res
+
     def gen(self, rng, tier):
         cases = templates(rng)
         n_rand = 220 if tier == "quick" else 6000
